@@ -3,9 +3,11 @@ Bounded stage for C10 (labelled bounded, never counted as proved): robustness
 of the application service access point against damaged service parameters.
 
 For every registered confirmed request class (27) and unconfirmed request
-class (11): a few metadata-generated valid instances (spec.gen_values) are
-encoded as full APDUs; the octets AFTER the fixed APCI header (4 octets
-confirmed, 2 unconfirmed) are damaged by
+class (11): a few metadata-generated valid instances (spec.gen_values; quick
+6, thorough 10 per class: from a pool of candidates whose encoding fits the
+octet bound, the shortest and the longest ones) are encoded as full APDUs;
+the octets AFTER the fixed APCI header (4 octets confirmed, 2 unconfirmed)
+are damaged by
 
   * every single-octet substitution (quick: 40 values per position: 0x00,
     0xFF, the neighbours, every other low nibble (class bit, length, opening,
@@ -35,8 +37,8 @@ location in the detail.
 import random
 import traceback
 
-N_INSTANCES = {'quick': 4, 'thorough': 8}
-MAX_OCTETS = {'quick': 40, 'thorough': 64}
+N_INSTANCES = {'quick': 6, 'thorough': 10}
+MAX_OCTETS = {'quick': 48, 'thorough': 64}
 INSERT_OCTETS = (0x00, 0xFF, 0x0E, 0x0F, 0x09, 0x3E, 0x3F, 0x75)
 
 
@@ -107,17 +109,17 @@ def _make_probe():
 
 
 def _instances(cls, choice, confirmed, rng, k, max_octets):
-    """up to k valid instances with distinct, short encodings -> [(octets, desc)]"""
+    """up to k valid instances with distinct encodings within the octet bound
+    -> [(octets, desc)]: from a pool of generated candidates the shortest one
+    and the k-1 longest ones (more parameters present, more nested structure,
+    so more decoder paths per class and less dependence on the seed)"""
     from spec import gen_values as G
-    out = []
-    seen = set()
+    pool = {}
     reasons = {}
     plans = [{'optionals': 'all'}, {'optionals': 'none'}]
-    tries = 0
-    while len(out) < k and tries < 60:
-        plan = plans[tries] if tries < len(plans) else {}
-        depth = 3 if tries < 30 else 2
-        tries += 1
+    for tries in range(8 * k):
+        plan = plans[tries] if tries < len(plans) else ({'optionals': 'all'} if tries % 3 == 0 else {})
+        depth = 3 if tries % 2 == 0 else 2
         try:
             v = G.gen(cls, rng, 0, depth, 2, plan=plan, long_strings=False)
             octets = G.encode_service(v, invoke_id=rng.randint(0, 255), service_choice=choice)
@@ -125,11 +127,16 @@ def _instances(cls, choice, confirmed, rng, k, max_octets):
             key = '%s: %s' % (type(err).__name__, str(err)[:100])
             reasons[key] = reasons.get(key, 0) + 1
             continue
-        if len(octets) > max_octets or octets in seen:
+        if len(octets) > max_octets:
+            reasons['encoding longer than %d octets' % (max_octets,)] = reasons.get('encoding longer than %d octets' % (max_octets,), 0) + 1
             continue
-        seen.add(octets)
-        out.append((octets, G.describe(cls, v, 200)))
-    return out, reasons
+        body = octets[:2] + octets[3:] if confirmed else octets
+        if body not in pool:
+            pool[body] = (octets, G.describe(cls, v, 200))
+    cands = sorted(pool.values(), key=lambda t: (len(t[0]), t[0]))
+    if len(cands) <= k:
+        return cands, reasons
+    return [cands[0]] + cands[-(k - 1):], reasons
 
 
 def _check_class(args):
